@@ -506,6 +506,9 @@ func (la *lockAnalysis) analyse(fn *ssa.Function, idPrefix string, used map[stri
 	}
 	// checks
 	var sites []lockSite
+	if c != nil && c.Flags["same_critical_section"] != "" && len(fn.Params) > 0 {
+		sites = append(sites, la.sameCriticalSection(fn, c, fkey)...)
+	}
 	holds := func(ls lockSet, id string, write bool) bool {
 		if ls["W:"+id] {
 			return true
@@ -632,6 +635,11 @@ func (la *lockAnalysis) analyse(fn *ssa.Function, idPrefix string, used map[stri
 					al, isAlloc := bnd.(*ssa.Alloc)
 					if !isAlloc || i >= len(cf.FreeVars) {
 						continue
+					}
+					if n := namedOf(al.Type().(*types.Pointer).Elem()); n != nil && n.Obj().Pkg() != nil {
+						if pp := n.Obj().Pkg().Path(); pp == "sync" || pp == "sync/atomic" || strings.HasPrefix(pp, "golang.org/x/sync/") {
+							continue // a synchronisation object shared on purpose (WaitGroup, Mutex, errgroup.Group, atomic.*)
+						}
 					}
 					vname := cf.FreeVars[i].Name()
 					ok := la.singleStore(al) != nil || onlyLoaded(al) || la.storesPrecedeSpawn(fn, al, ins)
@@ -822,4 +830,121 @@ func (la *lockAnalysis) storesPrecedeSpawn(fn *ssa.Function, al *ssa.Alloc, spaw
 		}
 	}
 	return true
+}
+
+// sameCriticalSection: "same_critical_section [tag] mu: f, g, ..." - every call of the listed callees in this method
+// happens while the receiver's mutex mu is held, and all of them inside ONE critical section: the lock they run
+// under was taken by the same Lock() call and not released in between (a forward data flow of "the Lock site whose
+// acquisition is still in force", meet = equal or nothing).
+func (la *lockAnalysis) sameCriticalSection(fn *ssa.Function, c *FuncContract, fkey string) []lockSite {
+	spec := c.Flags["same_critical_section"]
+	tag := ""
+	if strings.HasPrefix(spec, "[") {
+		if k := strings.Index(spec, "]"); k > 0 {
+			tag = spec[1:k]
+			spec = strings.TrimSpace(spec[k+1:])
+		}
+	}
+	k := strings.Index(spec, ":")
+	if k < 0 {
+		la.e.bail("same_critical_section [tag] mu: f, g")
+	}
+	mu := strings.TrimSpace(spec[:k])
+	want := map[string]bool{}
+	for _, f := range strings.Split(spec[k+1:], ",") {
+		want[strings.TrimSpace(f)] = true
+	}
+	lockID := "p:" + fn.Params[0].Name() + "." + mu
+	const top = "\x00top"
+	out := make([]string, len(fn.Blocks))
+	in := make([]string, len(fn.Blocks))
+	for i := range out {
+		out[i], in[i] = top, top
+	}
+	step := func(ins ssa.Instruction, cur string) string {
+		call, ok := ins.(*ssa.Call)
+		if !ok {
+			return cur
+		}
+		op, ok := mutexOp(call.Common())
+		if !ok || len(call.Common().Args) == 0 || la.canon(call.Common().Args[0], 0) != lockID {
+			return cur
+		}
+		switch op {
+		case "lock":
+			return posString(la.e.fset, call.Pos())
+		case "unlock":
+			return ""
+		}
+		return cur
+	}
+	changed := true
+	for iter := 0; changed && iter < 100; iter++ {
+		changed = false
+		for _, b := range fn.Blocks {
+			cur := ""
+			if b.Index != 0 {
+				cur = top
+				for _, p := range b.Preds {
+					o := out[p.Index]
+					if o == top {
+						continue
+					}
+					if cur == top {
+						cur = o
+					} else if cur != o {
+						cur = ""
+					}
+				}
+				if cur == top {
+					continue
+				}
+			}
+			in[b.Index] = cur
+			for _, ins := range b.Instrs {
+				cur = step(ins, cur)
+			}
+			if out[b.Index] != cur {
+				out[b.Index] = cur
+				changed = true
+			}
+		}
+	}
+	var bad []string
+	section := ""
+	n := 0
+	for _, b := range fn.Blocks {
+		if in[b.Index] == top {
+			continue
+		}
+		cur := in[b.Index]
+		for _, ins := range b.Instrs {
+			if call, ok := ins.(*ssa.Call); ok {
+				name := calleeShortName(call.Common())
+				if want[name] {
+					n++
+					pos := posString(la.e.fset, call.Pos())
+					switch {
+					case cur == "":
+						bad = append(bad, name+" at "+pos+" is called without "+mu+" held since one Lock()")
+					case section == "":
+						section = cur
+					case section != cur:
+						bad = append(bad, name+" at "+pos+" runs in the critical section opened at "+cur+", another listed call in the one opened at "+section)
+					}
+				}
+			}
+			cur = step(ins, cur)
+		}
+	}
+	if n == 0 {
+		bad = append(bad, "none of the listed callees is called here")
+	}
+	sort.Strings(bad)
+	st := lockSite{name: fmt.Sprintf("%s#lockset:section.%s", fkey, mu), tag: tag, pos: posString(la.e.fset, fn.Pos()), ok: len(bad) == 0,
+		desc: fmt.Sprintf("the calls of %s happen inside one critical section of %s", strings.TrimSpace(spec[k+1:]), mu)}
+	if len(bad) > 0 {
+		st.why = strings.Join(bad, "; ")
+	}
+	return []lockSite{st}
 }
